@@ -250,7 +250,9 @@ func LexCheck(src string) (*Finding, int, []token.Token) {
 			}
 			closing, term := refStringEnd(src, wantStart, q, tok.Type == token.RAW_STRING)
 			if !term {
-				return f("token-class", "unterminated string typed string", "a string literal without closing quote is typed as a string")
+				// a literal without closing quote extends to the end of the input; how it is typed (string or illegal) is
+				// not the tiling property's business (C12 requires strict mode to reject it)
+				closing = len(src) - 1
 			}
 			last = closing
 		case tok.Type == token.IDENT || kwTypes[tok.Literal] == tok.Type && tok.Type != 0 && isLetter(c):
@@ -296,10 +298,11 @@ func LexCheck(src string) (*Finding, int, []token.Token) {
 			}
 		case tok.Type == token.ILLEGAL && (c == '"' || c == '\'' || c == '`'):
 			// a literal whose closing quote is missing is reported as an illegal token spanning the rest of the input
-			if _, term := refStringEnd(src, wantStart, c, c == '`'); term {
-				return f("token-class", "terminated string typed illegal", "a terminated string literal is typed illegal")
+			if closing, term := refStringEnd(src, wantStart, c, c == '`'); term {
+				last = closing // typed illegal although terminated: still has to tile (C02 judges what the parser makes of it)
+			} else {
+				last = len(src) - 1
 			}
-			last = len(src) - 1
 		case tok.Type == token.ILLEGAL:
 			last = wantStart // one source byte
 		default:
